@@ -18,7 +18,12 @@
 (***************************************************************************)
 EXTENDS ScxmlAlgo
 
-CONSTANT Charts        \* sequence of chart values
+(* The chart family: a sequence of (augmented) chart values.  TLC re-evaluates *)
+(* operator definitions and CONSTANT substitutions on every use, which for a   *)
+(* definition that parses a file is ruinous; the family is therefore loaded    *)
+(* ONCE by the root module's initial predicate into TLC register 1.            *)
+Charts == TLCGet(1)
+LoadCharts(raw) == TLCSet(1, TLCEval([i \in DOMAIN raw |-> Aug(raw[i])]))
 
 VARIABLES ci, life, flags, m, ret, rootEntries
 vars == <<ci, life, flags, m, ret, rootEntries>>
